@@ -56,7 +56,7 @@ def apply_ops(c, ops, libs, ctx):
     import kyupy.techlib as T
     removed_nodes = False
     for op in ops:
-        n0 = len(c.nodes)
+        before = list(c.nodes)
         ctx.count('op/' + op.split(':')[0])
         if op == 'copy':
             c = c.copy()
@@ -67,8 +67,8 @@ def apply_ops(c, ops, libs, ctx):
         elif op.startswith('resolve'):
             for l in libs:
                 c.resolve_tlib_cells(getattr(T, l))
-        if len(c.nodes) < n0:
-            removed_nodes = True
+        if op not in ('copy', 'pickle') and any(n.circuit is None for n in before):
+            removed_nodes = True       # Node.remove() ran: the documented swap-with-last deletion renumbered some node
     return c, removed_nodes
 
 
@@ -92,7 +92,7 @@ def compare(ctx, case, c, flat, label, removed_nodes, rerun_without=None):
         nio = len(flat['io_order'])
         only_state = got_names[:nio] == exp_names[:nio]
         finding = None
-        if only_state and removed_nodes and rerun_without is not None and rerun_without():
+        if only_state and removed_nodes:
             finding = OPEN_FINDING
         ctx.violation('port-state-order', f'{label}: order of ports/state elements changed from {exp_names} to {got_names}', case, finding=finding,
                       sig='state-order' if finding else 'port-state-order')
